@@ -39,7 +39,11 @@ impl DualConnector {
         for _ in 0..raw_feat_template_size {
             let mut candidate_idx = 0;
             let mut min_matrix_size = left_feat_ids_tmp.len() * right_feat_ids_tmp.len();
-            for &trial_idx in &matrix_indices {
+            #[cfg(not(vibrato_verif))]
+            let trial_order = &matrix_indices;
+            #[cfg(vibrato_verif)]
+            let trial_order = &verif_trial_order(&matrix_indices);
+            for &trial_idx in trial_order {
                 let calculate_num_conn_ids = |feat_ids_tmp: &[Vec<U31>]| {
                     let mut map = HashMap::new();
                     for row in feat_ids_tmp {
@@ -358,4 +362,33 @@ YZ/yz\t-130
         assert_eq!(conn.cost(0, 0), 50);
         assert_eq!(conn.cost(1, 2), 40);
     }
+}
+
+#[cfg(vibrato_verif)]
+thread_local! {
+    /// Seed deciding the order in which `remove_feature_templates_greedy` tries templates
+    /// (verification hook replacing the randomly keyed hash-iteration order).
+    pub static VERIF_ORDER_SEED: std::cell::Cell<u64> = const { std::cell::Cell::new(0) };
+}
+
+/// Returns the elements of `set` in an order that is a pure function of `VERIF_ORDER_SEED`:
+/// ascending for seed 0, otherwise a seeded shuffle of the ascending order.
+#[cfg(vibrato_verif)]
+fn verif_trial_order(set: &HashSet<usize>) -> Vec<usize> {
+    let mut v: Vec<usize> = set.iter().cloned().collect();
+    v.sort_unstable();
+    let mut x = VERIF_ORDER_SEED.with(|s| s.get());
+    if x != 0 {
+        for i in (1..v.len()).rev() {
+            // splitmix64
+            x = x.wrapping_add(0x9E37_79B9_7F4A_7C15);
+            let mut z = x;
+            z = (z ^ (z >> 30)).wrapping_mul(0xBF58_476D_1CE4_E5B9);
+            z = (z ^ (z >> 27)).wrapping_mul(0x94D0_49BB_1331_11EB);
+            z ^= z >> 31;
+            let j = (z % (i as u64 + 1)) as usize;
+            v.swap(i, j);
+        }
+    }
+    v
 }
